@@ -231,14 +231,21 @@ def Config.decodable (c : Config) : Bool := c.allRegs.all Reg.decodable
 
 /-! ### Look-ups and the request loop -/
 
-/-- `MessageRequest` (with the string/record payload that matters). -/
+/-- `MessageRequest` (`none`: the oneof is absent). -/
 inductive Req where
-  | none                               -- `message_request` absent
+  | none
   | fileByFilename (s : Name)
   | fileContainingSymbol (s : Name)
-  | fileContainingExtension
-  | allExtensionNumbersOfType
-  | listServices
+  | fileContainingExtension (containingType : Name) (extensionNumber : Int)
+  | allExtensionNumbersOfType (s : Name)
+  | listServices (s : Name)
+deriving DecidableEq
+
+/-- `ServerReflectionRequest` -/
+structure Request where
+  host : Name
+  messageRequest : Req
+deriving DecidableEq
 
 /-- gRPC status codes the loop produces. -/
 inductive Code where
@@ -268,19 +275,26 @@ def respond (st : State) : Req → Except (Code × Bytes) Answer
     match assoc s st.symbols with
     | none => .error (.notFound, ascii "symbol '" ++ s ++ ascii "' not found")
     | some fd => .ok (.fileDescriptor fd)
-  | .fileContainingExtension => .error (.notFound, ascii "extensions are not supported")
-  | .allExtensionNumbersOfType => .ok .extensionNumbers
-  | .listServices => .ok (.services st.serviceNames)
+  | .fileContainingExtension _ _ => .error (.notFound, ascii "extensions are not supported")
+  | .allExtensionNumbersOfType _ => .ok .extensionNumbers
+  | .listServices _ => .ok (.services st.serviceNames)
 
-/-- The `while let Some(req) = req_rx.next().await` loop of one call: answers in order; the first
-error status is sent and ends the stream; otherwise the stream ends when the requests do. -/
-def runStream (st : State) : List Req → List Answer × Option (Code × Bytes)
+/-- `ServerReflectionResponse` (of the `Ok` kind; an error status is not a message). -/
+structure Response where
+  validHost : Name
+  originalRequest : Request
+  answer : Answer
+
+/-- The `while let Some(req) = req_rx.next().await` loop of one call: answers in order, each
+echoing its request (`valid_host: req.host`, `original_request: Some(req)`); the first error
+status is sent and ends the stream; otherwise the stream ends when the requests do. -/
+def runStream (st : State) : List Request → List Response × Option (Code × Bytes)
   | [] => ([], none)
   | r :: rs =>
-    match respond st r with
+    match respond st r.messageRequest with
     | .error e => ([], some e)
     | .ok a =>
       let (as, fin) := runStream st rs
-      (a :: as, fin)
+      ({ validHost := r.host, originalRequest := r, answer := a } :: as, fin)
 
 end Reflection
